@@ -286,9 +286,61 @@ def dirty_bytes(kind, fill, approx):
     return bytes.fromhex(fill) * 5
 
 
-def place_dirty(world, env, artefacts, sources=None, entry=None):
+LIVED = []      # the processes run by `lived_in` preludes since the last take_lived()
+
+
+def take_lived():
+    got = list(LIVED)
+    del LIVED[:]
+    return got
+
+
+def gen_lived(rng):
+    """A project directory that has been lived in: an earlier revision of the same project was really run or compiled here
+    (maybe killed at its k-th call on any file, or at a rename), then the sources were replaced by the current ones."""
+    d = {"kind": "lived_in", "cmd": rng.choice(["run", "compile", "compile"]), "fill": "00",
+         "times": rng.choice(["as_written", "old_sources", "all_equal", "future_artefacts"]), "kill": None}
+    if rng.chance(1, 2):
+        call, hi = rng.weighted([(("write", 24), 4), (("open", 14), 3), (("rename", 4), 1), (("read", 10), 1)])
+        d["kill"] = {"id": "lived", "call": call, "pat": "*", "nth": str(min(rng.range(1, hi), rng.range(1, hi))), "act": rng.choice(["kill", "killafter"])}
+    return d
+
+
+def place_dirty(world, env, artefacts, sources=None, entry=None, live=None):
     """Pre-existing artefacts: what an earlier, unrelated compile left behind."""
     if not env.get("dirty"):
+        return
+    if env["dirty"]["kind"] == "lived_in":
+        if not sources or not live:
+            return
+        cwd, spelled_entry = live
+        old = {k: re.sub(r"(?<![\w.#\"])(\d+)(?![\w.\"])", lambda m: str(int(m.group(1)) + 1), v) if k.endswith(".ms") and isinstance(v, str) else v for k, v in sources.items()}
+        for rel, content in old.items():
+            with open(os.path.join(world, rel), "wb") as f:
+                f.write(content.encode() if isinstance(content, str) else content)
+        d = env["dirty"]
+        args = ["run", spelled_entry, "-q"] if d["cmd"] == "run" else ["compile", spelled_entry, "--quick"]
+        a = core.run_cmd(cwd, args, plan={"seed": "00" * 16, "rules": [d["kill"]] if d.get("kill") else []}, timeout=10)
+        a["aux"] = True
+        a["lived"] = True
+        LIVED.append(a)
+        for rel, content in sources.items():
+            with open(os.path.join(world, rel), "wb") as f:
+                f.write(content.encode() if isinstance(content, str) else content)
+        # the file times of the project are the simulator's: sources a year older than everything else, every file the same
+        # instant, or artefacts from the future
+        t0 = 1600000000
+        for dirpath, _dirs, names in os.walk(world):
+            for nm in names:
+                q = os.path.join(dirpath, nm)
+                if os.path.islink(q):
+                    continue
+                if d["times"] == "all_equal":
+                    os.utime(q, (t0, t0))
+                elif d["times"] == "old_sources" and nm.endswith(".ms"):
+                    os.utime(q, (t0 - 400 * 86400, t0 - 400 * 86400))
+                elif d["times"] == "future_artefacts" and not nm.endswith(".ms"):
+                    os.utime(q, (t0 + 20 * 365 * 86400, t0 + 20 * 365 * 86400))
         return
     if env["dirty"]["kind"] == "older_revision":
         # the artefacts of an earlier revision of the same project: every integer literal was one higher then
